@@ -86,6 +86,10 @@ PROGRAMS = [
     P('del_1', ('del', 1)),
     P('rx_del_1', r(1, 'x'), ('del', 1)),
     P('new_3', ('new', 3)),
+    # write first, read afterwards: a read of ANOTHER attribute of an object that already has a pending change is a read too
+    P('wx_ry', w(1, 'x'), r(1, 'y')),
+    P('wx_rs', w(1, 'x'), r(1, 's')),
+    P('wx_ry_wz_from_y', w(1, 'x'), r(1, 'y'), w(1, 'z', 'y')),
 ]
 C = ('commit',)
 # db_sessions that go on after an explicit commit(): the transaction and every lock end there, the identity map and
